@@ -270,6 +270,9 @@ def run(tier, seed, replay=None):
         return gs, fails, stats, tr
     def tie(res):
         gs, fails, stats, tr = explore(seed, 48 if tier == 'quick' else 800)
+        from . import containers as CT
+        cf, ncopies = CT.copies_check('C17', seed, tier)
+        fails = fails + cf
         return {'ok': tr['msg'] is None, 'msg': tr['msg'], 'failures': fails, 'validated': len(gs), 'evaluations': len(gs),
                 'nontrivial': sum(1 for s in stats if s.get('items', 0) >= 10),
                 'rule': 'generated union multigraphs (long chains, binary trees, cliques, stars, random, duplicates and self-loops, the same edge issued by several ranks), 1-3 epochs, both async_union and async_union_and_execute, on 1-8 ranks under adversarial simmpi schedules; non-trivial: at least 10 items',
